@@ -34,6 +34,23 @@ SIG_D10 = 'ProofExp.instantiate(static):plugs-never-pushed:basic-ok/stateful-fai
 SIG_D11 = 'StatefulInterpreter.instantiate(delta={}):stack[-0:]-slice:stateful-fail/basic-ok'
 
 
+def regen_source():
+    """regenerate coq/Gen/PyProofDSL.v from the CURRENT source (statement-level translation, fail closed)"""
+    import sys
+    tdir = os.path.join(C.VERIF, 'translators')
+    if tdir not in sys.path:
+        sys.path.insert(0, tdir)
+    import py_proofdsl
+    try:
+        text = py_proofdsl.generate(C.REPO)
+        C.write_if_changed(os.path.join(C.COQ, 'Gen', 'PyProofDSL.v'), text)
+        return True, ''
+    except SystemExit as e:
+        return False, str(e)
+    except Exception as e:  # noqa: BLE001
+        return False, f'py_proofdsl: {e!r}'
+
+
 def setup():
     build_model()
 
@@ -305,7 +322,13 @@ def run(tier, seed):
     R = C.Report(CID, tier, seed)
     n = 480 if tier == 'quick' else 10000
 
+    ok_tr, tr_msg = regen_source()
     P = R.proof_stage()
+    if not ok_tr:
+        # the model could not be regenerated from the current source: nothing is proved about it
+        P['ok'] = False
+        P['log'] = 'translator failed closed: ' + tr_msg
+        P['discharged'] = 0
     proof_broken = not P['ok']
 
     ok, log, mlref = build_model()
@@ -384,6 +407,9 @@ def run(tier, seed):
                           'depth<=4, raw DSL compositions, failing compositions) run under one of 16 interpreter stacks and by the '
                           'extracted model; distinct by (expanded term, initial stack, memo set, stack); non-trivial = term has >= 2 rule nodes')
     return R.finish(level='proof', trusted_base=C.TRUSTED_COMMON + [
+        'translators/py_proofdsl.py (Python-ast statement-level translator of proof.py / basic_interpreter.py / interpreter.py / '
+        'interpreter_transformer.py / optimizing_interpreters.py -> coq/Gen/PyProofDSL.v, fail closed) and the reading conventions of '
+        'coq/PTerm/PyRt.v (monad of calls reaching the innermost interpreter, objects with open recursion, base_ops)',
         'harness/impl/pterm_runner.py: reifier (wraps the ProofExp rule constructors in-process to record the proof term), '
         'full notation expansion, encoders, pretty-output tokeniser',
         'modelling decision: patterns are notation-expanded; the hash-based membership of the memoisation set and the '
